@@ -159,8 +159,8 @@ def check_memory(tdf, path, model, case, seed, when):
         tab = parse_table(raw)
     except Exception:
         return fails
-    mem = [(e.type.value, e.format, e.offset, e.size, e.comment, secs(e.creation_date), secs(e.last_modification_date)) for e in tdf.entries]
-    disk = [(e["type"], e["format"], e["offset"], e["size"], e["comment_raw"].split(b"\x00")[0].decode("cp1252"), e["creation"], e["modification"]) for e in tab["entries"]]
+    mem = [(e.type.value, e.format, e.offset, e.size, e.comment, secs(e.creation_date), secs(e.last_modification_date), secs(e.last_access_date)) for e in tdf.entries]
+    disk = [(e["type"], e["format"], e["offset"], e["size"], e["comment_raw"].split(b"\x00")[0].decode("cp1252"), e["creation"], e["modification"], e["access"]) for e in tab["entries"]]
     if mem != disk:
         k = next((i for i in range(min(len(mem), len(disk))) if mem[i] != disk[i]), min(len(mem), len(disk)))
         fails.append(_f("C10", "C10.table", f"{when}: jump table of the open object differs from the table on disk at slot {k}: memory {mem[k] if k < len(mem) else None} vs disk {disk[k] if k < len(disk) else None}", case, seed))
@@ -264,6 +264,12 @@ def gen_block(rng, name):
             edits.refused_operations(name, b, rng)
         except Exception:
             pass
+    if rng.random() < 0.2:
+        # dates before 1970 are legal (signed 32-bit seconds)
+        from datetime import datetime as _dt
+        b.creation_date = _dt(1965, 5, 6, 7, 8, 9)
+        if rng.random() < 0.5:
+            b.last_modification_date = _dt(1969, 12, 31, 12, 0, 0)
     if rng.random() < 0.25:
         # a frame with an infinite leading component (the library stores it as a missing frame, DESIGN 3.4): the container
         # clauses -- entry size = bytes stored, what is read back re-encodes to the stored bytes -- hold all the same
@@ -388,6 +394,7 @@ def run_history(seed, si, tier, focus=None):
         model_lost = False
         for ctxi in range(rng.randint(1, 3)):
             tdf = Tdf(path)
+            refused_here = False          # a request was refused in this session: what goes wrong afterwards is C07's business too
             with tdf.allow_write() as t:
                 for step in range(rng.randint(1, 6)):
                     live = model.types()
@@ -482,8 +489,15 @@ def run_history(seed, si, tier, focus=None):
                             return fails
                         model_lost = False
                     fl, _ = check_disk(path, model, c2, seed, f"after '{desc}'")
+                    fl += check_memory(t, path, model, c2, seed, f"after '{desc}'")
+                    if op == "reject":
+                        refused_here = True
+                    elif refused_here:
+                        for f_ in fl:           # 'later operations in the same session behave as if the failed call had never been made'
+                            if "C07" not in f_["recipe"]["prop"]:
+                                f_["recipe"]["prop"] += ",C07"
+                                f_["message"] = "(in a session in which a request was refused earlier) " + f_["message"]
                     fails += fl
-                    fails += check_memory(t, path, model, c2, seed, f"after '{desc}'")
                     for m in model.live:
                         m.pop("fresh", None)
                     if len(fails) > 12:
